@@ -47,6 +47,8 @@ def with_references(g, schema, cfg, p=None):
 
 def real_validate(schema, cfg, doc, update, normalize=False, want_validator=False):
     cfg = real_cfg(cfg)
+    import spell
+    schema, cfg = spell.respell(schema, cfg, doc)
     try:
         v = cerberus.Validator(schema, **cfg)
     except cerberus.SchemaError as e:
@@ -148,6 +150,10 @@ def distribution(cases):
         elif r["r"] == "raise":
             d["raise_%s@%s" % (r["exn"], r["site"])] += 1
         d["depth_%d" % depth_of(c["schema"])] += 1
+        import spell
+        if spell.chosen(c["schema"], c.get("document")) and (
+                any(spell.eligible(v) for v in c["schema"].values()) or spell.eligible(c.get("config", {}).get("allow_unknown"))):
+            d["respelled_for_the_real_validator"] += 1
         for rules in c["schema"].values():
             if isinstance(rules, dict):
                 for k in rules:
